@@ -85,6 +85,7 @@ func main() {
 		scanPackage(p, short, facts)
 	}
 	extractTables(pkgs, facts)
+	extractSites(pkgs, facts, *leanDir) // panicsites.go, nilreturns.go (C01/C03 inventories)
 	sortSites(facts)
 	if *jsonOut != "" {
 		b, _ := json.MarshalIndent(facts, "", " ")
